@@ -572,7 +572,9 @@ def extra_c07_bounded(prop, tier, seed):
                   'blocks + 7 tails through the real base64_decode == RFC 4648 decoder (one alphabet per literal, optional '
                   'canonical trailing padding, zero pad bits); h literals: every string of <= 4 chars over {0,9,a,f,A,F,g,space}'
                   % (6 if tier == 'thorough' else 5), 'bound': 'see check', 'cases': out.get('tried'), 'found': out.get('found')},
-        {'check': 'integer literals at every syntactic position (type, range bounds, .size/.lt argument, tag number, occurrence bounds, member key): 288 boundary literals in dec/0x/0X/0b/0B/leading-zero spellings, +/-: stored value == RFC value, unrepresentable => parse error', 'bound': '288 literals x up to 8 positions', 'found': out.get('found')}]}
+        {'check': 'integer literals at every syntactic position (type, range bounds, .size/.lt argument, tag number, occurrence bounds, member key): 288 boundary literals in dec/0x/0X/0b/0B/leading-zero spellings, +/-: stored value == RFC value, unrepresentable => parse error', 'bound': '288 literals x up to 11 positions', 'found': out.get('found')},
+        {'check': 'float literals: 1770 decimal (fraction / exponent / both, boundaries of f64: e308, e309, e400, e-324, min normal, 2^53+1) and hexfloat spellings at 3 positions (type, control argument, range bound): bits of the stored f64 == correctly rounded value, overflow and malformed spellings => parse error', 'bound': '1770 literals x 3 positions', 'found': out.get('found')},
+        {'check': "whole byte-string literals through the real parser: h'..' and b64'..' with embedded whitespace / comments / trailing comment, '..' with escapes (\\\\, \\', \\n, \\t, \\/), non-ASCII and newlines: stored bytes == RFC 8610 3.1 value, invalid => parse error", 'bound': '1493 literals', 'found': out.get('found')}]}
     if out.get('found'):
         res['violations'].append({
             'unit': 'U2b', 'label': 'literal:%s-value-equals-rfc' % out['witness']['kind'], 'fn': 'unescape_text / base64_decode / hex_decode',
@@ -948,7 +950,7 @@ PROPS = {
         'witness': witness_u2,
         'engine': 'kx',
         'technique': 'Kani function contracts in place on parse_u64_lit/parse_uint_lit/parse_int_lit (proof_for_contract, callers via stub_verified), spec twin from RFC 8610 Appendix B',
-        'level_text': 'Integer literals only. parse_u64_lit is proved equal to a digit-level RFC 8610 value function (overflow => None) for every spelling up to a stated length per radix (complete in value: every u64 and the first overflowing length; bounded in spelling length, so labelled bounded). parse_uint_lit and parse_int_lit are proved against the CONTRACT of parse_u64_lit (stub_verified) for every magnitude and sign: usize/isize boundaries, -2^63 accepted, -(2^63+1) rejected - complete. Text escapes and h/b64 byte strings are outside both verifiers (iterator/String code, data-encoding tables): for them only a bounded differential stand-in against RFC spec twins runs on the real parser (labelled bounded, not counted; it found and led to the repair of F4 lone-surrogate escapes and F17 interior base64 padding). Floats and the pest call sites are not decided.',
+        'level_text': 'Integer literals only. parse_u64_lit is proved equal to a digit-level RFC 8610 value function (overflow => None) for every spelling up to a stated length per radix (complete in value: every u64 and the first overflowing length; bounded in spelling length, so labelled bounded). parse_uint_lit and parse_int_lit are proved against the CONTRACT of parse_u64_lit (stub_verified) for every magnitude and sign: usize/isize boundaries, -2^63 accepted, -(2^63+1) rejected - complete. Text escapes and h/b64 byte strings are outside both verifiers (iterator/String code, data-encoding tables): for them only a bounded differential stand-in against RFC spec twins runs on the real parser (labelled bounded, not counted; it found and led to the repair of F4 lone-surrogate escapes, F17 interior base64 padding, F33 `1e400` stored as infinity and F34 backslash escapes in '..' byte strings not processed / `\\'` rejected). Float literals are compared bit for bit with the correctly rounded value (decimal: Rust's own conversion is the trusted oracle; hexfloat: exact integer arithmetic) - bounded.',
         'level_note': 'Trusted: Kani/CBMC/cadical; Kani executes the real core::num parsing code (not assumed). Harnesses over symbolic spellings are length-bounded (bounds in evidence) and are reported as bounded, not counted as discharged proof obligations; the two caller proofs are complete. Unverified: unescape_text, clean_prefixed_byte_string, hex/base64 decoding (data-encoding), float parsing (core), the pest call sites.',
         'design_ref': 'DESIGN.md 4 U2',
         'scope': 'integer literal decoders of src/pest_bridge.rs',
